@@ -4,10 +4,12 @@ NOTE = ("task_cb/chld_cb/run_task of src/echsd.c executed symbolically for two t
         "(spawned without --no-run, not yet exited) independently of what the daemon supervises.")
 ASSUMPTIONS = ["libev, posix_spawn, pipe, openat and the buffered writer replaced by the stand-ins of harness/common/echsd_env.h",
                "limits N <= NMAX (or unset) so that NEV events can reach them; the comparison logic is symbolic in N"]
+FP = {'ev_periodic_start.function_pointer_call.1': ['resched'], 'env_advance.function_pointer_call.1': ['resched'],
+      'env_advance.function_pointer_call.2': ['task_cb', 'unsched'], 'env_child_exit.function_pointer_call.1': ['chld_cb']}
 def ob(name, nev, nmax, **kw):
-    o = dict(name=name, src='h_simul.c', defs=['NEV=%d' % nev, 'NMAX=%d' % nmax], units=[], incl=['src/echsd.c'], replay_units='all',
-             unwind=max(nev, 5) + 1, solver='cadical', timeout=900, mem_gb=12, checks=['--bounds-check', '--pointer-check'],
-             restrict_fp={}, allow_nobody=['snprintf', 'lseek', 'echs_log', 'echs_errlog', 'obint_name', 'dt_strf'],
+    o = dict(name=name, src='h_simul.c', defs=['NEV=%d' % nev, 'NMAX=%d' % nmax], units=[], incl=['src/echsd.c'], replay_units='all', replay_extra_units=['src/logger.c'],
+             unwind=max(nev, 5) + 1, solver='cadical', timeout=900, mem_gb=12, object_bits=12, checks=['--bounds-check', '--pointer-check'],
+             restrict_fp=FP, allow_nobody=['snprintf', 'lseek', 'echs_log', 'echs_errlog', 'obint_name', 'dt_strf'],
              enc=['task_cb', 'chld_cb', 'run_task', 'vtodoify', 'make_chld', 'free_chld', 'unsched'],
              sym='both limits and the schedule of %d events' % nev, bounds='2 tasks, %d events, limits 1..%d or unset' % (nev, nmax),
              outside='longer schedules; the real libev; real processes',
@@ -15,6 +17,7 @@ def ob(name, nev, nmax, **kw):
     o.update(kw)
     return o
 OBLIGATIONS = [
-    ob('simul_ev5_n2', 5, 2),
+    ob('simul_ev4_n2', 4, 2),
+    ob('simul_ev5_n2', 5, 2, tiers=('thorough',), timeout=3000, mem_gb=24),
     ob('simul_ev7_n3', 7, 3, tiers=('thorough',), timeout=3000, mem_gb=24),
 ]
